@@ -364,6 +364,13 @@ def replay_objects(rec, conc, what):
                     obj.add(allnames[i - 1], q)                 # the RESULT is changed afterwards
                 desc["steps"] = steps
                 desc_of[o["name"]] = dict(desc_of[o["of"][0]])
+            elif how == "step":
+                obj = py[o["of"][0]]
+                steps = [(st["i"], T.ev(st["q"], env)) for st in o.get("steps", [])]
+                for i, q in steps:
+                    obj.add(allnames[i - 1], q)                 # an earlier object is changed in place
+                desc["steps"] = steps
+                desc_of[o["name"]] = desc_of[o["of"][0]]
             elif how == "perturb":
                 obj = py[o["of"][0]]
                 desc["conversions"] = perturb_reported(obj)
